@@ -147,6 +147,31 @@ func c02xProperty(t *rapid.T, st *Stats, owner string) {
 	}
 	vfs.Reset(root, false)
 	check := func(srv *olareg.Server, when string) {
+		if owner == "C01" {
+			// whatever is served under a digest hashes to it, whatever lies in blobs/<alg>/<hex> hashes to its name -
+			// acknowledged or not, whatever failed on the way
+			if bad := scanBlobFiles(root); bad != "" {
+				fail("blob-file-wrong-content-after-io-error", "%s: %s (fault %s in step %d %q)", when, bad, faultOp, faultStep, stepName(steps, faultStep))
+			}
+			u := c12fUniverse()
+			for _, rn := range []string{"r", "r/n"} {
+				for _, d := range append(append([]string{}, u.blobs...), u.mans...) {
+					for _, what := range []string{"blobs", "manifests"} {
+						g := doReq(srv, "GET", "/v2/"+rn+"/"+what+"/"+d, nil, hdr("Accept", acceptAll))
+						if g.code == 200 && !hashesTo(d, g.body) {
+							fail("served-under-wrong-digest-after-io-error", "%s: GET /v2/%s/%s/%s returns %d bytes that do not hash to it (fault %s in step %d %q)", when, rn, what, short(d), len(g.body), faultOp, faultStep, stepName(steps, faultStep))
+						}
+					}
+				}
+				for _, tg := range u.tags {
+					g := doReq(srv, "GET", "/v2/"+rn+"/manifests/"+tg, nil, hdr("Accept", acceptAll))
+					if g.code == 200 && !hashesTo(g.hdr.Get("Docker-Content-Digest"), g.body) {
+						fail("served-under-wrong-digest-after-io-error", "%s: tag %s of %s reports %s, the body does not hash to it (fault %s in step %d %q)", when, tg, rn, short(g.hdr.Get("Docker-Content-Digest")), faultOp, faultStep, stepName(steps, faultStep))
+					}
+				}
+			}
+			return
+		}
 		if owner == "C03" {
 			// the listing is exactly the set of tags that resolve, each once, in lexical order
 			u := c12fUniverse()
@@ -215,6 +240,15 @@ func TestC02Faults(t *testing.T) {
 const c03xRule = "TestC03Faults: the histories and faults of TestC02Faults (directory store, reading and mutating faults, short writes, restarts); oracle = every tag acknowledged with 201 that no later tag push, tag delete or manifest delete " +
 	"addressed resolves to the manifest pushed under it, and tags/list of both repositories equals the sorted set of tags that resolve, on the running server and after Close + New; " +
 	"non-trivial = at least 3 objects were acknowledged before the step that received the fault and at least one after it; distinct = (history, k)"
+
+const c01xRule = "TestC01Faults: the histories and faults of TestC02Faults (directory store, reading and mutating faults, short writes, a client that resumes a failed chunk, restarts); oracle = every file under blobs/<alg>/<hex> " +
+	"hashes to its name, and every 200 for a blob, manifest or tag of the case carries bytes that hash to the digest it is served under, on the running server and after Close + New - acknowledged or not; " +
+	"non-trivial = at least 3 objects were acknowledged before the step that received the fault and at least one after it; distinct = (history, k)"
+
+func TestC01Faults(t *testing.T) {
+	st := newStats("TestC01Faults", "C01", c01xRule)
+	rapid.Check(t, func(rt *rapid.T) { c02xProperty(rt, st, "C01") })
+}
 
 func TestC03Faults(t *testing.T) {
 	st := newStats("TestC03Faults", "C03", c03xRule)
